@@ -32,8 +32,8 @@ Section keep.
     intros [t a e ok a' os ob _ _ _ _ _ _ _ _ _ _ _ (Hph & _) _ _ _|_ _ _ _ _ Hrs|ts _ _ _ _ _ _ (Hph & _) _] Hb.
     - unfold before_termination in *. by rewrite <- Hph.
     - unfold before_termination in *.
-      destruct Hrs as [o rest Hp0 _ _ _ Hp' _ _ _|t rest _ Hp0 _ _ Hp' _ _ _|t act rest _ Hp0 _ _ Hp' _ _ _ _ _
-                      |t act rest _ Hp0 _ _ Hp' _ _ _ _ _|_ Hp0 _ _ _ Hp' _ _ _ _|_ Hp0 _ _ _ Hp' _ _ _ _
+      destruct Hrs as [pre o rest Hp0 _ _ _ Hp' _ _ _|pre t rest _ Hp0 _ _ Hp' _ _ _|pre t act rest _ Hp0 _ _ Hp' _ _ _ _ _
+                      |pre t act rest _ Hp0 _ _ Hp' _ _ _ _ _|_ Hp0 _ _ _ Hp' _ _ _ _|_ Hp0 _ _ _ Hp' _ _ _ _
                       |_ Hp' _ _ _ _|_ _ Hp' _ _ _ _|st0 Hp0 _ Hp' _ _ _ _]; try (by left); try (rewrite Hp' in Hb; by destruct Hb);
         try (by rewrite <- Hp').
     - unfold before_termination in *. by rewrite <- Hph.
@@ -68,8 +68,8 @@ Section keep.
              apply elem_of_list_In in Hst0. apply (count_occ_In obs_eq_dec) in Hst0.
              apply elem_of_list_In in Hstart. apply (count_occ_In obs_eq_dec) in Hstart. lia.
       + split.
-        * destruct Hrs as [o rest Hp0 _ _ _ Hp' _ Htq _|t rest _ Hp0 _ _ Hp' _ _ _|t act rest _ Hp0 _ _ Hp' _ _ _ Htq _
-                          |t act rest _ Hp0 _ _ Hp' _ _ _ Htq _|_ Hp0 _ _ _ Hp' _ _ _ _|_ Hp0 _ _ _ Hp' _ _ Htq _
+        * destruct Hrs as [pre o rest Hp0 _ _ _ Hp' _ Htq _|pre t rest _ Hp0 _ _ Hp' _ _ _|pre t act rest _ Hp0 _ _ Hp' _ _ _ Htq _
+                          |pre t act rest _ Hp0 _ _ Hp' _ _ _ Htq _|_ Hp0 _ _ _ Hp' _ _ _ _|_ Hp0 _ _ _ Hp' _ _ Htq _
                           |_ Hp' _ _ Htq _|_ _ Hp' _ _ _ _|st0 Hp0 _ Hp' _ _ _ _];
             try (rewrite Htq; by apply (ki_termq _ IH)); unfold before_termination in Hb1; rewrite Hp' in Hb1; by destruct Hb1.
         * intros x. rewrite Hh. by apply (ki_nostop _ IH).
